@@ -55,6 +55,7 @@ Definition holds (s : st) (p : pid) : bool :=
 Section Protocol.
   Variable dead : pid -> bool.
   Variable cas : bool.
+  Variable dbl : pid -> bool.   (* [dbl p]: after every release p calls unlock() once more (a double release) *)
 
   Definition goto (s : st) (p : pid) (v : loc) : st := mk (link s) (upd (pc s) p v).
 
@@ -91,7 +92,7 @@ Section Protocol.
     | URm =>
         match link s with
         | None => (goto s p Idle, EURmGone)
-        | Some _ => (mk None (upd (pc s) p Idle), EURmOk)
+        | Some _ => (mk None (upd (pc s) p (if dbl p then UStart else Idle)), EURmOk)
         end
     | UStart =>
         match link s with
